@@ -798,11 +798,14 @@ fn search(a: &Args) {
     let budget_for = |len: usize| Duration::from_millis(90_000 + (len as u64) / 5);
 
     // 1. ladders of every kind at fixed rungs, each in its own child (2 MiB stack, wall-clock budget)
-    let rec_rungs: &[usize] = if deep { &[150, 1000, 20000, 100000, 400000] } else { &[150, 1000, 30000] };
-    let chain_rungs: &[usize] = if deep { &[2000, 10000, 30000, 200000] } else { &[2000, 30000] };
+    // every recursive ladder overflowed 2 MiB between 1200 and 5100 levels before the guard: 10000 levels decide
+    let rec_rungs: &[usize] = if deep { &[150, 1000, 10000, 100000, 400000] } else { &[150, 10000] };
+    let chain_rungs_all: &[usize] = if deep { &[2000, 10000, 30000, 200000] } else { &[2000] };
+    let chain_rungs_probe: &[usize] = if deep { &[2000, 10000, 30000, 200000] } else { &[2000, 30000] };
     for (kind, rec) in KINDS {
         let mut stop = false;
-        for &n in if *rec { rec_rungs } else { chain_rungs } {
+        let probe = matches!(*kind, "plus" | "suffix_dot" | "doc_union");
+        for &n in if *rec { rec_rungs } else if probe { chain_rungs_probe } else { chain_rungs_all } {
             if stop {
                 continue;
             }
@@ -843,7 +846,7 @@ fn search(a: &Args) {
     }
 
     // 2. huge flat inputs: must parse within a budget proportional to their size; the token pump must stay linear
-    let flat_sizes: &[usize] = if deep { &[20000, 100000, 300000] } else { &[30000] };
+    let flat_sizes: &[usize] = if deep { &[20000, 100000, 300000] } else { &[20000] };
     for shape in 0..8usize {
         for &stmts in flat_sizes {
             let case = json!({"mode": "flat", "shape": shape, "stmts": stmts, "level": "5.5", "doc": true});
